@@ -108,6 +108,9 @@ func vObserve(tag string, vals ...any) {
 	for _, v := range vals {
 		switch v := v.(type) {
 		case string:
+			if vNative.root != "" {
+				v = strings.ReplaceAll(v, vNative.root, "/vfs")
+			}
 			parts = append(parts, fmt.Sprintf("%q", v))
 		case []byte:
 			parts = append(parts, fmt.Sprintf("%q", string(v)))
